@@ -658,7 +658,10 @@ def r10k(ctx):
         if "merge_sorted(" not in chain:
             continue
         n += 1
-        ruled_out = any("_is_single_partition_broadcast" in ast.unparse(g) for g, pol in p.guards if not pol)
+        def _gtext(g):
+            return ast.unparse(g) + " " + " ".join(ast.unparse(d.value) for nm in names_in(g) for d in defs.reaching(nm, p.stmt) if d.value is not None)
+
+        ruled_out = any("_is_single_partition_broadcast" in _gtext(g) for g, pol in p.guards if not pol)
         cid = f"_merge.Merge._divisions:merged-divisions#{n}"
         if ruled_out:
             ctx.ok(cid, c.module.loc(p.stmt), "the single-partition broadcast is answered before the merged divisions")
@@ -669,7 +672,7 @@ def r10k(ctx):
     for st in flow.walk(fn):
         if not isinstance(st.stmt, ast.Assign):
             continue
-        if not any(pol and "_is_single_partition_broadcast" in ast.unparse(t) for t, pol in flow.facts(st)):
+        if not any(pol and "_is_single_partition_broadcast" in (ast.unparse(t) + " " + " ".join(ast.unparse(d.value) for nm in names_in(t) for d in defs.reaching(nm, st.stmt) if d.value is not None)) for t, pol in flow.facts(st)):
             continue
         n += 1
         cid = f"_merge.Merge._divisions:single-partition-count:{ast.unparse(st.stmt.targets[0])}"
